@@ -20,7 +20,7 @@ CHECKS = {
             "Trusts the scene model and SimDisk; device fault-free apart from short transfers; prototypes follow the documented rules with at least one sized record.",
             SIM + "seeded API-call programs x section placement x device chunk schedules x packet-capacity knob vs. scene model", "DESIGN.md §5 C01"),
     "C02": (True, "exploration",
-            "Every image finalized in the C01/C06 program space (metadata strings from the full XML token pool) is judged by an independent codec (refcodec) written from the format description and calibrated at start-up on 19 foreign files: fsck rules, then decode == points, blobs and metadata handed to the writer. Every 512th program has its coordinate metadata solved (CRC-32C is affine over GF(2)) so that a page version reaches the device with the checksum of its previous version, or 0 / 0xFFFFFFFF for a new page.",
+            "Every image finalized in the C01/C06 program space (metadata strings from the full XML token pool) is judged by an independent codec (refcodec) written from the format description and calibrated at start-up on 19 foreign files: fsck rules, then decode == points, blobs and metadata handed to the writer. Every 512th program has its coordinate metadata solved (CRC-32C is affine over GF(2)) so that a page version reaches the device with the checksum of its previous version, or 0 / 0xFFFFFFFF for a new page. Every 512th program has an XML section of 270..420 KB.",
             "Trusts refcodec (own page layer, bitwise CRC-32C, own XML parser; roxmltree as second opinion) and its calibration on E57RefImpl/libE57Format/las2e57 files.",
             SIM + "seeded writer programs on a simulated device, judged by an independent fsck/decoder", "DESIGN.md §5 C02"),
     "C06": (True, "exploration",
@@ -40,7 +40,7 @@ CHECKS = {
             "What a writer offers after a failed call is judged only through the top-level finalize; EINTR only on transfers; errors in Drop are swallowed by design.",
             SIM + "exhaustive single-fault injection over the recorded device-operation sequence, plus schedule-independence under seeded short transfers", "DESIGN.md §5 C16"),
     "C03": (True, "exploration",
-            "Seeded scenes encoded by an independent, specification-driven producer (refcodec) under a seeded layout schedule (ragged per-stream packetisation with values straddling packets and empty streams, index/ignored packets before/between/after data packets, shuffled and padded sections, omitted optional type attributes, XML lexical variants); the producer's output must pass refcodec's own fsck and decode to the scene; the crate's reader on a simulated device with seeded short reads must return exactly the encoded values, counts and metadata. Run indices 0..19 read the bundled E57RefImpl / libE57Format / las2e57 files with the crate and with refcodec and compare. The producer also emits ignored packets up to 65536 bytes and index packets of higher levels over earlier index packets.",
+            "Seeded scenes encoded by an independent, specification-driven producer (refcodec) under a seeded layout schedule (ragged per-stream packetisation with values straddling packets and empty streams, index/ignored packets before/between/after data packets, shuffled and padded sections, omitted optional type attributes, XML lexical variants); the producer's output must pass refcodec's own fsck and decode to the scene; the crate's reader on a simulated device with seeded short reads must return exactly the encoded values, counts and metadata. Run indices 0..19 read the bundled E57RefImpl / libE57Format / las2e57 files with the crate and with refcodec and compare. The producer also emits ignored packets up to 65536 bytes and index packets of higher levels over earlier index packets. Rare classes: prototypes of 255..703 attributes, runs of more than 1024 ignored packets between two data packets, and more than half a million points written attribute by attribute (one attribute far ahead of the others).",
             "Legal layout space is conservative (choices supported by the format description and by libE57Format-written files). Known finding F13b (all-constant prototype) listed.",
             SIM + "foreign-producer packetisation/interleaving schedule x device chunk schedules vs. scene model", "DESIGN.md §5 C03"),
     "C05": (True, "exploration",
@@ -68,7 +68,7 @@ CHECKS = {
             "Compared is what the writer API can express (see evidence assumptions).",
             SIM + "multi-stage copy pipelines over three simulated disks with independent chunk schedules; byte-determinism across schedules", "DESIGN.md §5 C19"),
     "C20": (True, "exploration",
-            "Tool processes built from the workspace run in a private /dev/shm directory: XYZ -> e57-from-xyz -> [stored-byte fault] -> e57-check-crc / e57-to-xyz, and generator-made E57 files (intact or damaged) -> e57-check-crc / e57-extract-xml / e57-unpack; outputs compared with the inputs and with the library's own results. Every eighth run feeds e57-from-xyz an input of about 1.1 MiB whose line ends are swept over every position relative to the 1 MiB border of a block-wise reader.",
+            "Tool processes built from the workspace run in a private /dev/shm directory: XYZ -> e57-from-xyz -> [stored-byte fault] -> e57-check-crc / e57-to-xyz, and generator-made E57 files (intact or damaged) -> e57-check-crc / e57-extract-xml / e57-unpack; outputs compared with the inputs and with the library's own results. Every eighth run feeds e57-from-xyz an input of about 1.1 MiB whose line ends are swept over every position relative to the 1 MiB border of a block-wise reader. XYZ inputs also have lines of several KiB, colours drawn from {0,1} only, and a first line holding a single small integer; E57 inputs also have XML beyond 64 KiB made of multi-byte characters.",
             "Weakest fit of the technique: only the stored bytes between process stages are under the simulator's control; GUIDs from uuid are outside the observed outputs.",
             SIM + "process-level pipelines with seeded inputs and stored-byte faults between stages", "DESIGN.md §5 C20"),
     "C17": (True, "exploration",
